@@ -398,6 +398,51 @@ func runC08(c *Ctx) {
 	c.Rule("C08-D6", "replay of logged packets (shared with C09-D1): the log keeps the caller's header and arguments and the replay re-encodes them, so Encode must not rewrite what it is given — today it replaces Binary leaves by placeholders in place and flips the logged header to BINARY_EVENT, so a binary packet is replayed with its header announcing an attachment that is never sent", 4)
 	encodePurity(c, "C08-D6")
 
+	c.Rule("C08-D7", "the cut between 'missed' and 'live' is atomic: (a) in sessionAwareAdapter.Broadcast the append to the packet log and the fan-out (the inner Broadcast) lie in one critical section of the adapter's "+
+		"mutex — otherwise a packet logged before a RestoreSession and fanned out after the socket is registered reaches the client twice; (b) in Namespace.add the RestoreSession call and the registration of "+
+		"the socket (doConnect) lie in one critical section of a lock that the broadcast path also takes — otherwise a packet broadcast in between is neither among the missed packets nor delivered live, "+
+		"and the session is still reported recovered", 2)
+	{
+		bc := p.Fn("adapter", "sessionAwareAdapter.Broadcast")
+		li := Locks(bc)
+		appends := findInstrs(bc, fieldStorePred(p.Field("adapter", "sessionAwareAdapter", "packets")))
+		fan := CallsTo(Calls(bc), `\(\*adapter\.inMemoryAdapter\)\.Broadcast`)
+		if len(appends) == 0 || len(fan) == 0 {
+			c.Undecided("C08-D7: log append (%d) or inner Broadcast (%d) not found in sessionAwareAdapter.Broadcast", len(appends), len(fan))
+		} else {
+			okR := true
+			for _, ap := range appends {
+				for _, f := range fan {
+					if !(li.HoldsAny(f.Instr, "a.mu") && SameRegion(li, ap, f.Instr, "a.mu")) {
+						okR = false
+					}
+				}
+			}
+			c.Ob("C08-D7", "adapter.sessionAwareAdapter.Broadcast/append-and-fanout", fan[0].Pos(), okR, "the packet is appended to the log under a.mu, the mutex is released, and only then is it fanned out (held at the fan-out: "+li.Held(fan[0].Instr).String()+"): a RestoreSession and the registration of the recovering socket fit in between — the packet is among the missed packets AND delivered live")
+		}
+		add := p.Fn("sio", "Namespace.add")
+		ali := LocksInherit(add)
+		rs := CallsTo(Calls(add), `.*RestoreSession.*`)
+		reg := CallsTo(Calls(add), `\(\*sio\.Namespace\)\.doConnect`)
+		if len(rs) == 0 || len(reg) == 0 {
+			c.Undecided("C08-D7: RestoreSession (%d) or doConnect (%d) call not found in Namespace.add", len(rs), len(reg))
+		} else {
+			okA := true
+			for _, r := range reg {
+				common := false
+				for l := range ali.Held(rs[0].Instr) {
+					if _, also := ali.Held(r.Instr)[l]; also && SameRegion(ali, rs[0].Instr, r.Instr, l) {
+						common = true
+					}
+				}
+				if !common {
+					okA = false
+				}
+			}
+			c.Ob("C08-D7", "sio.Namespace.add/restore-to-registration", rs[0].Pos(), okA, "RestoreSession fixes the missed packets under the adapter's mutex and releases it; the socket becomes reachable for broadcasts only in doConnect (after newServerSocket has encoded the missed packets, and after the middlewares when UseMiddlewares is set); no lock spans the two (held at RestoreSession: "+ali.Held(rs[0].Instr).String()+"): a broadcast in between is lost for this client although it is told the session was recovered")
+		}
+	}
+
 	c.Rule("C08-D5", "client offset bookkeeping: the CONNECT payload presents the stored pid and last offset; the pid is stored from the CONNECT reply and `recovered` set only when it equals the one presented; the values handed to a handler are exactly those decoded for it (no re-slicing between decode and call)", 6)
 	{
 		sc := p.Fn("sio", "clientSocket.sendConnectPacket")
